@@ -49,13 +49,13 @@ def families(tier, seed):
         seqs = [list(p) for p in itertools.permutations(ops, 2)]
         rng.shuffle(seqs)
         seqs = [q for q in seqs if not ("run_inputs" in q and mtag == "hierarchy-2")]
-        for sq in seqs[: (6 if tier == "quick" else 40)]:
+        for sq in seqs[: (6 if tier == "quick" else 120)]:
             out.append(dict(tag=f"{mtag}/{'+'.join(sq)}", features=dict(model=mtag, ops=sq), kind="readonly", model=model, ops=sq, seed=seed,
                             dict_vars=mtag.startswith("dictvars")))
         if tier == "thorough":
             seq3 = [list(p) for p in itertools.permutations(ops, 3)]
             rng.shuffle(seq3)
-            for sq in [q for q in seq3 if not ("run_inputs" in q and mtag == "hierarchy-2")][:40]:
+            for sq in [q for q in seq3 if not ("run_inputs" in q and mtag == "hierarchy-2")][:100]:
                 out.append(dict(tag=f"{mtag}/{'+'.join(sq)}", features=dict(model=mtag, ops=sq), kind="readonly", model=model, ops=sq, seed=seed))
     return out
 
